@@ -87,6 +87,7 @@ Proof.
       destruct (_ || _ || _).
       { unfold cap_to_process. rewrite H2. cbn. now apply vis_upd_cap_pop. }
       match goal with H : (d_code (decode w) =? kCR) = false |- _ => rewrite H end.
+      destruct (d_code (decode w) =? kDER); [destruct (cap_to_process c2); [now apply vis_upd_cap_pop|reflexivity]|].
       destruct (d_code (decode w) =? kBS); [now apply vis_backspace_pop|reflexivity].
     + destruct (d_cls (decode w) =? cSpecial); [rewrite vis_prev, vis_prev_type, <- V2; now apply vis_process_text_pop|].
       destruct (d_cls (decode w) =? cExtended); [|exact V2].
@@ -229,7 +230,10 @@ Proof.
                    | Att r => match dget r (p_lines q') with Some l => set_plines q' (dset r (f l) (p_lines q')) | None => q' end
                    | Det l => set_cur q' (Det (f l)) end)) = length (p_lines q')).
     { intros q' f. destruct (p_cur q'); [|reflexivity]. destruct (dget _ _) eqn:E; [|reflexivity]. cbn. eapply len_dset_present; eauto. }
-    rewrite G. destruct (_ <? 0); [apply G|reflexivity]. }
+    fold (upd_cur_line) in G. rewrite G.
+    set (q1 := if _ <? 0 then _ else q).
+    assert (E1 : length (p_lines q1) = length (p_lines q)) by (unfold q1; destruct (_ <? 0); [apply G|reflexivity]).
+    clearbody q1. destruct (0 <? _); [rewrite G|]; exact E1. }
   rewrite H2 in H3. destruct (ind =? -1); [cbn; lia|]. destruct (H4 (set_cur p3 (Att row))) as [E|E]; [rewrite E|rewrite E]; cbn; lia.
 Qed.
 (* ... and none when the current line is the empty initial line of a new paragraph, which it removes *)
@@ -269,7 +273,7 @@ Proof.
   change (c_act (with_prev (with_prev_type (process_control c2 kCR) cControl) (Some (value w)))) with (c_act (process_control c2 kCR)).
   assert (Hpc : process_control c2 kCR =
     let '(c1, previous_lines) :=
-      if is_nil (t_text (cur_text a)) then (with_count c2 (c_count c2 - 1), [])
+      if para_is_empty a then (with_count c2 (c_count c2 - 1), [])
       else let c1 := upd_act (push_active c2 (Some t1) false) roll_up in
            (c1, match c_act c1 with Some a1 => last_lines a1 (c_depth c1 - 1) | None => [] end) in
     upd_act (new_active_caption c1 t1 sRollUp) (fun x => set_cursor_at (set_lines_list x previous_lines) roll_up_base_row (-1))).
@@ -285,7 +289,7 @@ Proof.
     unfold zlen in *. destruct H1 as [(Hl & Hcur & Hg)|Hl].
     - pose proof (len_set_cursor_at_fresh _ roll_up_base_row Hcur Hg). lia.
     - pose proof (len_set_cursor_at (set_lines_list p0 ls) roll_up_base_row (-1)). lia. }
-  destruct (is_nil (t_text (cur_text a))).
+  destruct (para_is_empty a).
   - apply Hmain. cbn. lia.
   - apply Hmain.
     assert (Ed : c_depth (upd_act (push_active c2 (Some t1) false) roll_up) = c_depth c).
